@@ -93,10 +93,19 @@ EXC_KINDS = {
     "sysexit": SystemExit,
     "genexit": GeneratorExit,
     "value": ValueError,
+    "cancel": __import__("asyncio").CancelledError,
 }
 
 
 def make_exc(kind, nid, att):
+    if kind == "callerr":
+        # what a call that runs a nested uberjob.run raises when the inner plan fails: a CallError with its own cause
+        import uberjob
+        from uberjob.graph import Call
+
+        e = uberjob.CallError(Call(len))
+        e.__cause__ = ValueError(f"inner failure n{nid} attempt {att}")
+        return e
     return EXC_KINDS[kind](f"injected n{nid} attempt {att}")
 
 
